@@ -8,8 +8,8 @@
    reserved_free p: the tag VALUE "_none" and the empty measurement are the two places where
    the format itself is not faithful (known finding F17): C05_*_refuted below. *)
 From Coq Require Import List ZArith NArith Bool.
-From TF Require Import Base Query Codec Csv Text proofs.CodecP proofs.CsvP proofs.TextP proofs.CodecGenP.
-From TF Require gen.CodecGen.
+From TF Require Import Base Query Codec Csv Text proofs.CodecP proofs.CsvP proofs.TextP proofs.CodecGenP proofs.DecodeGenP.
+From TF Require gen.CodecGen gen.DecodeGen.
 Import ListNotations.
 
 Theorem C05_roundtrip : forall (compact : bool) (p : point), wf_point p -> reserved_free p = true -> de (ser compact p) = Some p.
@@ -52,6 +52,32 @@ Proof. exact not_injective_refuted. Qed.
 Example C05_nonvacuous : exists p, wf_point p /\ reserved_free p = true /\ p_tags p <> [] /\ p_fields p <> [] /\ de (ser true p) = Some p.
 Proof. exact de_ser_example. Qed.
 
+(* what the loops of Point._deserialize_from_list DECIDE, REGENERATED from tinyflux/point.py on every run (gen/DecodeGen.v): which cells are tag
+   keys and which prefix is stripped, when the tag loop hands over to the field loop, the sentinel test, the prefix stripped from field keys,
+   the class constants - one turn of each loop of the model's decoder, spelled with the generated decisions, for every string *)
+Theorem C05_source_decoder_tag_loop : forall f k rest acc,
+  de_tags (S f) (CText k :: rest) acc =
+  match DecodeGen.gen_tag_key k with
+  | None => None
+  | Some None => Some (acc, CText k :: rest)
+  | Some (Some tk) => match rest with CText v :: rest' => de_tags f rest' (dset tk (DecodeGen.gen_tag_value v) acc) | _ => None end
+  end.
+Proof. exact de_tags_step. Qed.
+Theorem C05_source_decoder_field_loop : forall f k rest acc,
+  de_fields (S f) (CText k :: rest) acc =
+  match DecodeGen.gen_field_key k with
+  | None => None
+  | Some fk => match rest with
+               | CNum x :: rest' => de_fields f rest' (dset fk (Some x) acc)
+               | CText v :: rest' => if str_eqb v DecodeGen.none_str then de_fields f rest' (dset fk None acc) else None
+               | _ => None
+               end
+  end.
+Proof. exact de_fields_step. Qed.
+Theorem C05_source_constants : DecodeGen.none_str = s_none /\ DecodeGen.default_tag_key_prefix = pre_tag /\ DecodeGen.default_field_key_prefix = pre_field /\
+  DecodeGen.compact_tag_key_prefix = pre_ctag /\ DecodeGen.compact_field_key_prefix = pre_cfield.
+Proof. exact gen_constants. Qed.
+
 Print Assumptions C05_source_serializer_is_the_model.
 Print Assumptions C05_roundtrip.
 Print Assumptions C05_text_roundtrip.
@@ -62,3 +88,6 @@ Print Assumptions C05_csv_injective.
 Print Assumptions C05_file_roundtrip.
 Print Assumptions C05_roundtrip_refuted_sentinel.
 Print Assumptions C05_injective_refuted.
+Print Assumptions C05_source_decoder_tag_loop.
+Print Assumptions C05_source_decoder_field_loop.
+Print Assumptions C05_source_constants.
